@@ -10,6 +10,8 @@ import (
 	"fmt"
 
 	"github.com/EliCDavis/polyform/formats/gltf"
+	"github.com/EliCDavis/polyform/generator/artifact"
+	"github.com/EliCDavis/polyform/nodes"
 
 	"verif/harness/core"
 )
@@ -60,6 +62,25 @@ func execute(cs Case) (string, []Problem) {
 	d, ps := Parse(buf.Bytes(), cs.GLB)
 	if d == nil {
 		return "unparsable", ps
+	}
+	// the node-graph entry point (gltf.ArtifactNode: models only, GLB) writes the same document
+	if cs.GLB && cs.Lights == 0 && len(cs.Models) > 0 {
+		var nb bytes.Buffer
+		var nerr error
+		g := core.Guard(func() {
+			sc2 := Build(cs)
+			var outs []nodes.NodeOutput[gltf.PolyformModel]
+			for _, m := range sc2.Models {
+				outs = append(outs, nodes.Value(m).Out())
+			}
+			var art artifact.Artifact
+			if art, nerr = (gltf.ArtifactNodeData{Models: outs}).Process(); nerr == nil {
+				nerr = art.Write(&nb)
+			}
+		})
+		if g.Panicked || nerr != nil || !bytes.Equal(normExt(nb.Bytes()), normExt(buf.Bytes())) {
+			ps = append(ps, problem("gltf.ArtifactNodeData.Process", "the node-graph entry point writes the document gltf.WriteBinary writes", "artifact-node", "artifact wrote %d bytes, WriteBinary %d (or other content) %s %v", nb.Len(), buf.Len(), g.Msg, nerr))
+		}
 	}
 	ps = append(ps, d.Validate()...)
 	ps = append(ps, d.CheckContent(cs)...)
